@@ -344,5 +344,96 @@ impl<A, D: Dimension> ArrayN<A, D> {
 //@end
 }
 
+impl<A, D: Dimension> ArrayN<A, D> {
+//@extract file=src/summary_statistics/means.rs impl=SummaryStatisticsExt:ArrayBase fn=central_moments id=central_moments tags=C07,C17 body_tags=C07
+//@sig
+    fn central_moments(&self, order: u16) -> (r: Result<Vec<A>, MinMaxError>)
+    where
+        A: Float + FromPrimitive,
+//@spec
+        requires real_model::<A>(), real_from_usize::<A>(), self@.len() <= usize::MAX,
+            order < u16::MAX, // artefact of R15 (`2..=n` is read as `2..n+1`)
+        ensures
+            self@.len() == 0 ==> r matches Err(MinMaxError::EmptyInput), // [C07,C17]
+            self@.len() > 0 ==> r is Ok, // [C07,C17]
+            self@.len() > 0 ==> r->Ok_0@.len() == order as int + 1, // [C07]
+            self@.len() > 0 ==> r->Ok_0@[0] == A::one_spec() && (order >= 1 ==> r->Ok_0@[1] == A::zero_spec()), // [C07] exactly one / zero
+            self@.len() > 0 ==> forall|p: int| 0 <= p <= order as int ==> (#[trigger] r->Ok_0@[p]).val() == cmoment_def(vals(self@), p as nat), // [C07]
+//@closure 0
+|x: A| -> (y: A) ensures y.val() == x.val() - mean.val()
+//@at entry
+        proof { if self@.len() > 0 { lemma_cmoment_01(vals(self@)); } }
+        let ghost xs = vals(self@); let ghost cnt = self@.len() as int;
+//@at after_let shifted_array 0
+                let ghost ys = vals(shifted_array@); let ghost mu = mean.val();
+                proof {
+                    assert forall|i: int| 0 <= i < cnt implies #[trigger] ys[i] == xs[i] - mu by { }
+                    lemma_shift_sum(xs, ys, mu, cnt);
+                    rl_div_mul(rsum(xs), cnt as real);
+                    rl_assoc(mu, cnt as real, 1real);
+                    lemma_psum_is_ppsum1(ys, cnt);
+                    assert(ppsum(ys, 1, cnt) == 0real);
+                    rl_zero(cnt as real);
+                    assert forall|p: nat| #[trigger] devp(xs, mu, p, cnt) == ppsum(ys, p, cnt) by { lemma_devp_shift(xs, ys, mu, p, cnt); }
+                }
+//@at after_let correction_term 0
+                proof { assert(correction_term.val() == 0real); }
+//@loop 0 iter=it
+                    invariant
+                        real_model::<A>(), real_from_usize::<A>(), xs == vals(self@), cnt == self@.len(), cnt > 0, mu == mean_def(xs),
+                        n == order, n < u16::MAX, correction_term.val() == 0real,
+                        shifted_moments@.len() == n as int + 1,
+                        forall|p: int| 1 <= p <= n as int ==> (#[trigger] shifted_moments@[p]).val() == ppsum(ys, p as nat, cnt) / (cnt as real),
+                        forall|p: nat| #[trigger] devp(xs, mu, p, cnt) == ppsum(ys, p, cnt),
+                        central_moments@.len() == 2 + it.index@,
+                        central_moments@[0] == A::one_spec(), central_moments@[1] == A::zero_spec(),
+                        forall|p: int| 0 <= p < central_moments@.len() ==> (#[trigger] central_moments@[p]).val() == cmoment_def(xs, p as nat), // [C07]
+//@at loop_start 0
+                    proof { assert(k == 2 + it.index@); }
+//@at after_let central_moment 0
+                    proof {
+                        let cs = vals(coefficients@);
+                        rl_zero(horner_from(cs, 1, 0real));
+                        assert(binom(coefficients@.len(), 0) == 1);
+                        assert(cs[0] == 1real * shifted_moments@[k as int].val());
+                        assert(central_moment.val() == cmoment_def(xs, k as nat));
+                    }
+//@end
+}
+
+impl<A, D: Dimension> ArrayN<A, D> {
+//@extract file=src/summary_statistics/means.rs impl=SummaryStatisticsExt:ArrayBase fn=kurtosis id=kurtosis tags=C07,C17 body_tags=C07
+//@sig
+    fn kurtosis(&self) -> (r: Result<A, MinMaxError>)
+    where
+        A: Float + FromPrimitive,
+//@spec
+        requires real_model::<A>(), real_from_usize::<A>(), self@.len() <= usize::MAX,
+        ensures
+            self@.len() == 0 ==> r matches Err(MinMaxError::EmptyInput), // [C07,C17]
+            self@.len() > 0 ==> r is Ok, // [C07,C17]
+            // mu_4 / mu_2^2
+            ({ let xs = vals(self@); let mu2 = cmoment_def(xs, 2);
+               self@.len() > 0 && mu2 != 0real ==> r->Ok_0.val() == cmoment_def(xs, 4) / (mu2 * mu2) }), // [C07]
+//@at after_let central_moments 0
+        proof { let m2 = central_moments@[2].val(); lemma_rpow_small(m2); if m2 != 0real { rl_sq_nonzero(m2); } }
+//@end
+
+//@extract file=src/summary_statistics/means.rs impl=SummaryStatisticsExt:ArrayBase fn=skewness id=skewness tags=C07,C17 body_tags=C07
+//@sig
+    fn skewness(&self) -> (r: Result<A, MinMaxError>)
+    where
+        A: Float + FromPrimitive,
+//@spec
+        requires real_model::<A>(), real_from_usize::<A>(), self@.len() <= usize::MAX,
+        ensures
+            self@.len() == 0 ==> r matches Err(MinMaxError::EmptyInput), // [C07,C17]
+            self@.len() > 0 ==> r is Ok, // [C07,C17]
+            // mu_3 / sqrt(mu_2)^3  ( = mu_3 / mu_2^1.5 )
+            ({ let xs = vals(self@); let sd = sqrt_r(cmoment_def(xs, 2));
+               self@.len() > 0 && rpow(sd, 3) != 0real ==> r->Ok_0.val() == cmoment_def(xs, 3) / rpow(sd, 3) }), // [C07]
+//@end
+}
+
 } // verus!
 fn main() {}
